@@ -126,7 +126,7 @@ func ruleC02Long(e *Env) map[int][]string {
 		}
 		k4, k9 := fmt.Sprintf("flag&bits(%d)", bitIndex(f4)), fmt.Sprintf("flag&bits(%d)", bitIndex(f9))
 		long4, long9 := strings.Repeat(p.one, 4), p.five+strings.Repeat(p.one, 4)
-		tableRef := "*roman." + p.table + "[value]"
+		tableRef := "*roman." + e.vname("roman", p.table) + "[value]"
 		for _, lf := range leaves {
 			construct := lf.String()
 			if lf.Err != nil {
@@ -358,7 +358,7 @@ func ruleC02Decomp(e *Env) {
 			callee = e.C.StaticCallee(&src.Call)
 		}
 		switch {
-		case callee == nil || callee != e.P.Func("roman", wants[i].fn):
+		case callee == nil || callee != e.F("roman", wants[i].fn):
 			e.S.Bad(rule, site, construct, fmt.Sprintf("write #%d is not the result of %s (order must be thousands, hundreds, tens, units)", i+2, wants[i].fn), e.posOf(w), "")
 		case src.Call.Args[0] != wants[i].arg:
 			e.S.Bad(rule, site, construct, wants[i].fn+" is not given the digit of its own decimal position", e.posOf(w), "")
@@ -408,7 +408,7 @@ func loopBoundedBy(b *ssa.BasicBlock, bound ssa.Value) bool {
 func ruleC02Lower(e *Env) {
 	const rule = "C02.lower"
 	fn := e.Fn(rule, "roman", "toLower")
-	df := e.P.Func("roman", "DefaultFormatter")
+	df := e.F("roman", "DefaultFormatter")
 	if fn == nil {
 		return
 	}
